@@ -281,11 +281,13 @@ func (c *CqlClientConnection) incomingLoop() {
 func (c *CqlClientConnection) outgoingLoop() {
 	log.Debug().Msgf("%v: listening for outgoing frames...", c)
 	c.waitGroup.Add(1)
+	// read the field once: Close sets it to nil before closing the channel, and receiving from a nil channel blocks forever
+	outgoingChannel := c.outgoing
 	go func() {
 		abort := false
 		for !abort && !c.IsClosed() {
 			verifPoint("client.outgoingLoop.iter")
-			if outgoing, ok := <-c.outgoing; !ok {
+			if outgoing, ok := <-outgoingChannel; !ok {
 				if !c.IsClosed() {
 					log.Error().Msgf("%v: outgoing frame channel was closed unexpectedly, closing connection", c)
 					abort = true
